@@ -23,9 +23,12 @@ CACHEMON = {
     'C15': {'quick': {'cases': 2400, 'budget_s': 50}, 'thorough': {'cases': 60000, 'budget_s': 600},
             'floor': 150, 'req': ['c15_checks', 'c15_mgmt_checks']},
     'C16': {'quick': {'cases': 1600, 'budget_s': 50}, 'thorough': {'cases': 40000, 'budget_s': 600},
-            'floor': 100, 'req': ['c16_raise_checks', 'twin_runs']},
+            'floor': 100, 'req': ['c16_raise_checks', 'twin_runs', 'calls_degraded']},
     'C18': {'quick': {'cases': 1600, 'budget_s': 50}, 'thorough': {'cases': 40000, 'budget_s': 600},
             'floor': 100, 'req': ['c18_introspection_checks', 'twin_runs']},
+    'C20': {'quick': {'cases': 2400, 'budget_s': 50}, 'thorough': {'cases': 40000, 'budget_s': 600},
+            'floor': 100, 'req': ['c20_roundtrips', 'c20_lockstep_steps', 'c20_independence_checks',
+                                  'c20_continuations_with_eviction']},
 }
 
 ASSUME_COMMON = [
